@@ -104,10 +104,10 @@ Definition WFd (n p m : nat) (sv : Solver) : Prop :=
 Lemma wf_mat_repeat_nil_T r n : wf_mat n r (mtranspose r (repeat [] n)).
 Proof. pose proof (wf_mat_mtranspose r (repeat [] n)) as H. rewrite repeat_length in H. exact H. Qed.
 
-Lemma scale_data_wf K ident_pc pc d reuse sc it pc' d' :
+Lemma scale_data_wf K sq ident_pc pc d reuse sc it pc' d' :
   sane_consts K -> wf_data d -> wf_pc pc d -> pc_inverse pc ->
   pc_ident pc = ident_pc ->
-  scale_data K pc d reuse sc it = Ok (pc', d') ->
+  scale_data K sq pc d reuse sc it = Ok (pc', d') ->
   wf_data d' /\ wf_pc pc' d' /\ pc_inverse pc' /\ pc_nlb pc' = d_nlb d' /\ pc_nub pc' = d_nub d' /\
   d_n d' = d_n d /\ d_p d' = d_p d /\ d_m d' = d_m d.
 Proof.
@@ -117,17 +117,17 @@ Proof.
     split; [exact W|]. split; [split; [constructor; cbn; auto; lia|cbn; auto]|].
     split; [constructor; cbn; assumption|]. cbn. auto.
   - destruct reuse.
-    + destruct (scale_reuse_preserves K pc d sc it pc' d' W WP I E) as (A & B & C & D1 & D2).
-      destruct (scale_reuse_is_transform K pc d sc it pc' d' W WP E) as (T & _). destruct T.
+    + destruct (scale_reuse_preserves K sq pc d sc it pc' d' W WP I E) as (A & B & C & D1 & D2).
+      destruct (scale_reuse_is_transform K sq pc d sc it pc' d' W WP E) as (T & _). destruct T.
       auto 10.
     + assert (DA : dims_agree pc d) by apply WP.
-      destruct (scale_establishes_inverse K SK pc d sc it pc' d' W DA E) as (A & B & C & D1 & D2 & _).
-      destruct (scaled_data_is_transform K SK pc d sc it pc' d' W DA E) as (T & _). destruct T.
+      destruct (scale_establishes_inverse K sq SK pc d sc it pc' d' W DA E) as (A & B & C & D1 & D2 & _).
+      destruct (scaled_data_is_transform K sq SK pc d sc it pc' d' W DA E) as (T & _). destruct T.
       auto 10.
 Qed.
 
-Theorem setup_wf K ident j S n p m B sv :
-  sane_consts K -> setup_blocks_ok n p m B -> setup K ident j S n p m B = Ok sv -> WFd n p m sv.
+Theorem setup_wf K ident sq j S n p m B sv :
+  sane_consts K -> setup_blocks_ok n p m B -> setup K ident sq j S n p m B = Ok sv -> WFd n p m sv.
 Proof.
   intros SK (BP & Bc & BA & Bb & BG & Bh & Blb & Bub) E. unfold setup in E.
   destruct (b_P B) as [P|]; [|discriminate]. destruct (b_c B) as [c|]; [|discriminate].
@@ -154,14 +154,14 @@ Proof.
   { subst ubp. destruct (b_ub B) as [l|]; [|cbn; auto]. specialize (Bub l eq_refl).
     pose proof (pack_ub_wf (k_inf K) l 0) as H. cbn [Nat.add] in H. rewrite Bub in H. exact H. }
   destruct ubp as [ubv ubi]. cbn [fst snd] in Wub. destruct Wub as [Wubi Lub].
-  match type of E with bind (scale_data K (precond_init ident ?d) _ _ _ _) _ = _ => set (d0 := d) in E end.
+  match type of E with bind (scale_data K sq (precond_init ident ?d) _ _ _ _) _ = _ => set (d0 := d) in E end.
   assert (W0 : wf_data d0).
   { subst d0. constructor; cbn; try assumption; try apply vconst_length.
     - apply wf_mat_upper_tri. exact BP.
     - destruct (b_b B); [exact Bb|symmetry; exact Bb]. }
   destruct (pc_inverse_init ident d0 W0) as [I0 WP0].
-  destruct (scale_data K (precond_init ident d0) d0 false _ _) as [[pc d]|] eqn:Es; cbn [bind] in E; [|discriminate].
-  destruct (scale_data_wf K ident _ _ _ _ _ _ _ SK W0 WP0 I0 eq_refl Es) as (W & WP & I & N1 & N2 & Dn & Dp & Dm).
+  destruct (scale_data K sq (precond_init ident d0) d0 false _ _) as [[pc d]|] eqn:Es; cbn [bind] in E; [|discriminate].
+  destruct (scale_data_wf K sq ident _ _ _ _ _ _ _ SK W0 WP0 I0 eq_refl Es) as (W & WP & I & N1 & N2 & Dn & Dp & Dm).
   destruct (kkt_init d (rho_init S) (delta_init S) j) as [k|] eqn:Ek; cbn [bind] in E; [|discriminate].
   injection E as <-. subst d0. cbn in Dn, Dp, Dm. split; [|cbn; auto]. unfold WFsv. cbn.
   split; [exact W|]. split; [exact WP|]. split; [exact I|]. split; [exact N1|]. split; [exact N2|].
@@ -271,9 +271,9 @@ Proof.
   injection H as <-. cbn. auto.
 Qed.
 
-Theorem update_wf K n p m sv B reuse sv' :
+Theorem update_wf K sq n p m sv B reuse sv' :
   sane_consts K -> WFd n p m sv -> update_blocks_ok n p m B ->
-  update K sv B reuse = Ok sv' -> WFd n p m sv'.
+  update K sq sv B reuse = Ok sv' -> WFd n p m sv'.
 Proof.
   intros SK ((W & WP & I & Nlb & Nub & O1 & O2 & O3 & HK) & Hn & Hp & Hm) HB E. subst n p m.
   rewrite update_split in E. unfold update_data in E.
@@ -281,15 +281,15 @@ Proof.
                           WD (d_n (sv_data sv)) (d_p (sv_data sv)) (d_m (sv_data sv)) d0).
   { unfold unscale_data. destruct (pc_ident (sv_pc sv)).
     - eexists; split; [reflexivity|]. unfold WD. auto.
-    - destruct (unscale_scale_id K _ _ false 0%Z W WP I Nlb Nub) as (d0 & E0 & W0 & _).
+    - destruct (unscale_scale_id K sq _ _ false 0%Z W WP I Nlb Nub) as (d0 & E0 & W0 & _).
       exists d0. split; [exact E0|]. destruct (ruiz_unscale_dims _ _ _ E0) as (A1 & A2 & A3). unfold WD. auto. }
   destruct H0 as (d0 & E0 & W0 & N0 & P0 & M0). rewrite E0 in E. cbn [bind] in E.
   rewrite <- N0, <- P0, <- M0 in HB.
   destruct (replace_blocks_wf K d0 B W0 HB) as (W8 & N8 & P8 & M8).
-  destruct (scale_data K (sv_pc sv) (replace_blocks K d0 B) reuse _ _) as [[pc' d']|] eqn:Es; cbn [bind] in E; [|discriminate].
+  destruct (scale_data K sq (sv_pc sv) (replace_blocks K d0 B) reuse _ _) as [[pc' d']|] eqn:Es; cbn [bind] in E; [|discriminate].
   assert (WP8 : wf_pc (sv_pc sv) (replace_blocks K d0 B)).
   { destruct WP as (WL & En & Ep & Em). split; [exact WL|]. repeat split; congruence. }
-  destruct (scale_data_wf K _ _ _ _ _ _ _ _ SK W8 WP8 I eq_refl Es) as (W' & WP' & I' & N1 & N2 & Dn & Dp & Dm).
+  destruct (scale_data_wf K sq _ _ _ _ _ _ _ _ SK W8 WP8 I eq_refl Es) as (W' & WP' & I' & N1 & N2 & Dn & Dp & Dm).
   destruct (kkt_update_data d' (sv_kkt sv) _ _ _) as [k|]; cbn [bind] in E; [|discriminate].
   injection E as <-. split; [|cbn; repeat split; congruence]. unfold WFsv. cbn.
   split; [exact W'|]. split; [exact WP'|]. split; [exact I'|]. split; [exact N1|]. split; [exact N2|].
